@@ -30,11 +30,27 @@
                              (Rat is Clone but not Copy): (f1_score(p, r)  mean(xs)  variance(xs)
                              determinant([[a b] [c d]])); for ty 0 the harness also instantiates
                              every other routine of linear_algebra at Rat (a build-time check)
+     (19 11 tag fn abits bbits)  floats, the extra traits of numeric::extra: fn 0 sqrt 1 exp 2 ln 3 sin
+                             4 cos (by value and by reference), 5 pow (all four forms), 6 pi; the
+                             harness compares the forms bit for bit and with the std method: (1),
+                             and for pi the model names the bit pattern: (1 bits)
+     (19 12 ty (x ..) (rows cols data) p r)  the division-bearing generic routines at element types
+                             that are NOT fields (ty 2 Wrapping<i64>, 3 the user-defined whole-number
+                             type, 4 plain i64 on small inputs; 0 1 allowed as well):
+                             (mean variance covariance_column_features covariance_row_features
+                              covariance(tensor, first dimension) covariance(tensor, second) f1_score),
+                             each an outcome except f1_score; a / n is T's own (truncating) division
+     (19 13 ty (d ..) (v ..) (rows cols data))  ty 0 1: Matrix::from_diagonal(d), Tensor::euclidean_length(v),
+                             Matrix::euclidean_length of v as a column and as a row,
+                             Row/ColumnMajorOwnedIterator::from_numeric and
+                             TensorOwnedIterator::from_numeric over the matrix, Trace::pi(), Record::pi()
    The model evaluates every form function of Model/Numeric.v and prints their common result
    ((99 ..) should they differ, which Proofs/C19P.v excludes).
-   ty: 0 Rat, 1 Fp, 2 Wrapping<i64>. *)
+   ty: 0 Rat, 1 Fp, 2 Wrapping<i64>, 3 Whole (unbounded integers, truncating division), 4 i64. *)
 From Coq Require Import List ZArith NArith Bool.
-From EasyML Require Import Base.Sx Model.Shape Model.Tensor Model.Num Model.Tape Model.Numeric Model.Arith.
+From EasyML Require Import Base.Sx Model.Shape Model.Tensor Model.Num Model.Tape Model.Numeric Model.Arith
+     Model.Whole.
+From EasyML Require Model.Stats.
 Import ListNotations.
 Open Scope Z_scope.
 
@@ -187,8 +203,57 @@ Definition u_f1 (p r : R) : R :=
 (* determinant of a 2x2 matrix (any evaluation order agrees in a commutative ring) *)
 Definition u_det2 (a b c d : R) : R := nsub ops (nmul ops a d) (nmul ops b c).
 
+(* ---- (19 12): the division-bearing routines of linear_algebra, any element type ---- *)
+Fixpoint chunks (rows cols : nat) (l : list R) : list (list R) :=
+  match rows with
+  | O => []
+  | S r => firstn cols l :: chunks r cols (skipn cols l)
+  end.
+Definition smat2 (m : list (list R)) : sx := slist (slist (nenc ops)) m.
+Definition c19_whole (xs : list R) (rows cols : N) (data : list R) (p r : R) : sx :=
+  let m := chunks (N.to_nat rows) (N.to_nat cols) data in
+  SL [ soutcome (nenc ops) (Stats.mean ops xs);
+       soutcome (nenc ops) (Stats.variance ops xs);
+       soutcome smat2 (Stats.covariance_column_features ops m);
+       soutcome smat2 (Stats.covariance_row_features ops m);
+       soutcome (fun c => smat2 (snd c)) (Stats.covariance ops (0%nat, 1%nat) m 0%nat);
+       soutcome (fun c => smat2 (snd c)) (Stats.covariance ops (0%nat, 1%nat) m 1%nat);
+       nenc ops (Stats.f1_score ops p r) ].
+
+(* ---- (19 13): constructors, lengths, owned iterators, Pi of the wrappers ---- *)
+Definition c19_ctor (d v : list R) (rows cols : N) (data : list R) : sx :=
+  let n := length d in
+  (* Matrix::from_diagonal: Matrix::empty(zero, (n, n)) then set(i, i, element) *)
+  let diag := flat_map (fun i => map (fun j => if Nat.eqb i j then nth i d (nzero ops) else nzero ops)
+                                     (seq 0 n)) (seq 0 n) in
+  let m := chunks (N.to_nat rows) (N.to_nat cols) data in
+  let column_major := flat_map (fun j => map (fun row => nth j row (nzero ops)) m)
+                               (seq 0 (N.to_nat cols)) in
+  SL [ SL [snat n; snat n; slist (nenc ops) diag];
+       (* Tensor::euclidean_length: iter.map(|x| x * x).sum::<T>().sqrt() *)
+       nenc ops (nsqrt ops (fold_left (nadd ops) (map (fun x => nmul ops x x) v) (nzero ops)));
+       (* Matrix::euclidean_length: (x^T * x).scalar().sqrt() resp. (x * x^T).scalar().sqrt() *)
+       soutcome (nenc ops) (omap (nsqrt ops) (scalar_product ops v v));
+       soutcome (nenc ops) (omap (nsqrt ops) (scalar_product ops v v));
+       slist (nenc ops) data; slist (nenc ops) column_major; slist (nenc ops) data;
+       strace (trace_constant ops (npi ops)); srecord (record_constant (npi ops)) ].
+
 Definition c19_user (op : Z) (args : list sx) : sx :=
   match op, args with
+  | 12, [xs; SL [rows; cols; data]; p; r] =>
+      match dlist (ndec ops) xs, dN rows, dN cols, dlist (ndec ops) data, ndec ops p, ndec ops r with
+      | Some (x :: xs), Some rows, Some cols, Some data, Some p, Some r =>
+          if (0 <? rows)%N && (0 <? cols)%N && (rows * cols =? N.of_nat (length data))%N
+          then c19_whole (x :: xs) rows cols data p r else bad_case
+      | _, _, _, _, _, _ => bad_case
+      end
+  | 13, [d; v; SL [rows; cols; data]] =>
+      match dlist (ndec ops) d, dlist (ndec ops) v, dN rows, dN cols, dlist (ndec ops) data with
+      | Some (d0 :: d), Some (v0 :: v), Some rows, Some cols, Some data =>
+          if (0 <? rows)%N && (0 <? cols)%N && (rows * cols =? N.of_nat (length data))%N
+          then c19_ctor (d0 :: d) (v0 :: v) rows cols data else bad_case
+      | _, _, _, _, _ => bad_case
+      end
   | 10, [p; r; xs; SL [a; b; c; d]] =>
       match ndec ops p, ndec ops r, dlist (ndec ops) xs, ndec ops a, ndec ops b, ndec ops c, ndec ops d with
       | Some p, Some r, Some (x :: xs), Some a, Some b, Some c, Some d =>
@@ -235,6 +300,15 @@ Definition run_c19 (args : list sx) : sx :=
   | [SZ 3; SZ w; SZ tag; SZ op; SZ a; SZ b] =>
       if wrapper_ok w then c19_arith w tag op a b else bad_case
   | [SZ 4; SZ tag; SZ op; SZ a; SZ b] => if is_float tag then SL [SZ 1] else bad_case
+  | [SZ 11; SZ tag; SZ fn; SZ a; SZ b] =>
+      if is_float tag && (0 <=? fn) && (fn <=? 6) then
+        if fn =? 6 then SL [SZ 1; SZ (if tag =? 12 then pi_bits_f32 else pi_bits_f64)] else SL [SZ 1]
+      else bad_case
+  | SZ 12 :: SZ ty :: rest =>
+      if (ty =? 3) || (ty =? 4) then c19_user Wholeops 12 rest
+      else with_ty3 ty (fun R ops => c19_user ops 12 rest)
+  | SZ 13 :: SZ ty :: rest =>
+      if (ty =? 0) || (ty =? 1) then with_ty3 ty (fun R ops => c19_user ops 13 rest) else bad_case
   | SZ op :: SZ ty :: rest =>
       if (5 <=? op) && (op <=? 10) then with_ty3 ty (fun R ops => c19_user ops op rest) else bad_case
   | _ => bad_case
